@@ -396,9 +396,22 @@ def bop__2b (l r : Val) (m : M) : Option OpRes :=
   | .ref a, .ref b => let (m', id) := m.alloc (m.arr a ++ m.arr b); pure' m' (.ref id)
   | _, _ => none
 
+/-- `value::operator==`: two empty values are equal, otherwise `data::equals` (case sensitive) -/
+def valueEq (h : List (List Val)) (a b : Val) : Bool :=
+  match a, b with
+  | .nil, .nil => true
+  | .nil, _ => false
+  | _, .nil => false
+  | _, _ => valEq h false (h.length + 2) a b
+
 def bop__2d (l r : Val) (m : M) : Option OpRes :=
   match l, r with
   | .num a, .num b => pure' m (.num (Dec.sub a b))
+  | .ref a, .ref b =>
+    -- elements of the left array that do not occur in the right one
+    let ys := m.arr b
+    let (m', id) := m.alloc ((m.arr a).filter (fun x => !(ys.any (fun y => valueEq m.heap y x))))
+    pure' m' (.ref id)
   | _, _ => none
 
 def bop__2a (l r : Val) (m : M) : Option OpRes :=
